@@ -471,12 +471,22 @@ func checkOverlapWeights(c *Ctx, p *core.Prog, m, cont *ssa.Function) {
 func checkWithdrawalsCommitted(c *Ctx, p *core.Prog, m *ssa.Function) {
 	n := 0
 	for _, fn := range pkgClosure(m, v2pkg) {
+		// the retain flags: the elements of a []bool made here, or the boolean field of the elements of a slice of structs
+		// made here (each candidate kept together with its flag)
 		var flags *ssa.MakeSlice
 		for _, b := range fn.Blocks {
 			for _, in := range b.Instrs {
 				if ms, ok := in.(*ssa.MakeSlice); ok {
-					if sl, isSl := ms.Type().Underlying().(*types.Slice); isSl && isBool(sl.Elem()) {
-						flags = ms
+					if sl, isSl := ms.Type().Underlying().(*types.Slice); isSl {
+						if isBool(sl.Elem()) {
+							flags = ms
+						} else if st := core.StructOf(sl.Elem()); st != nil {
+							for k := 0; k < st.NumFields(); k++ {
+								if isBool(st.Field(k).Type()) {
+									flags = ms
+								}
+							}
+						}
 					}
 				}
 			}
@@ -493,7 +503,10 @@ func checkWithdrawalsCommitted(c *Ctx, p *core.Prog, m *ssa.Function) {
 					continue
 				}
 				ia, ok := st.Addr.(*ssa.IndexAddr)
-				if !ok || ia.X != ssa.Value(flags) {
+				if fa, isFA := st.Addr.(*ssa.FieldAddr); isFA && isBool(st.Val.Type()) {
+					ia, ok = fa.X.(*ssa.IndexAddr)
+				}
+				if !ok || ia.X != ssa.Value(flags) || !isBool(st.Val.Type()) {
 					continue
 				}
 				stores = append(stores, st)
